@@ -488,7 +488,7 @@ def register(reg, prog):
             g.append(('continues-backlog-of-this-endpoint', ev('r is message.remote', r=e[2])))
         return g
 
-    reg.contract(MM + '._remove_exchange', params={'message': MSG}, properties=['C03', 'C14', 'C02'],   # C02: a Reset must not strand the queued requests
+    reg.contract(MM + '._remove_exchange', params={'message': MSG}, properties=['C03', 'C14', 'C02', 'C08'],   # C02: a Reset must not strand the queued requests
                  requires=['mm_inv(self)', 'message.remote is not None'],
                  only_raises=True, at_exit=rm_exit, modifies=[REC, ACT, BL, '*lists'],
                  ghost=lg('_remove_exchange', 'self', 'message'),
